@@ -32,7 +32,6 @@ import (
 	"fmt"
 	"math"
 	"os"
-	"regexp"
 	"runtime"
 	"sort"
 	"strconv"
@@ -41,6 +40,7 @@ import (
 	"sync/atomic"
 	"time"
 
+	"github.com/ecodeclub/ekit/internal/errs"
 	"github.com/ecodeclub/ekit/retry"
 	"github.com/ecodeclub/ekit/zzverif/vlib"
 )
@@ -482,18 +482,27 @@ func (s *strat) state() string {
 	return fmt.Sprintf("retries=%d flag=0", retry.VerifFixedState(s.fix))
 }
 
-var reInterval = regexp.MustCompile(`无效的间隔时间 (-?\d+), 预期值应大于 0`)
-var reMaxInterval = regexp.MustCompile(`最大重试间隔的时间 \[(-?\d+)\] 应大于等于初始重试的间隔时间 \[(-?\d+)\]`)
-
+// ctorErr recognises the constructors' errors by re-building them with the library's own
+// constructors (internal/errs) from the integers that occur in the message — not by its wording.
 func ctorErr(err error) string {
 	msg := err.Error()
-	if m := reInterval.FindStringSubmatch(msg); m != nil {
-		return "err:interval:" + m[1]
+	if a, ok := vlib.MatchInts1(msg, func(a int64) string {
+		return errs.NewErrInvalidIntervalValue(time.Duration(a)).Error()
+	}); ok {
+		return "err:interval:" + strconv.FormatInt(a, 10)
 	}
-	if m := reMaxInterval.FindStringSubmatch(msg); m != nil {
-		return "err:maxinterval:" + m[1] + ":" + m[2]
+	if a, b, ok := vlib.MatchInts2(msg, func(a, b int64) string {
+		return errs.NewErrInvalidMaxIntervalValue(time.Duration(a), time.Duration(b)).Error()
+	}); ok {
+		return "err:maxinterval:" + strconv.FormatInt(a, 10) + ":" + strconv.FormatInt(b, 10)
 	}
 	return "err:other"
+}
+
+// isExhausted: err is what errs.NewErrRetryExhausted builds around the error it wraps.
+func isExhausted(err error) bool {
+	last := errors.Unwrap(err)
+	return last != nil && errs.NewErrRetryExhausted(last).Error() == err.Error()
 }
 
 // what an out-of-range float64 -> int64 conversion yields on this machine (oracle for the model's Arch)
@@ -630,7 +639,7 @@ func runRetry(s *strat, w []string, st *stats, stMu *sync.Mutex) string {
 	case err == context.Canceled:
 		res = "canceled"
 	default:
-		if strings.HasPrefix(err.Error(), "ekit: 超过最大重试次数") {
+		if isExhausted(err) {
 			res = "exhausted"
 		}
 		for k, e := range bizErrs {
